@@ -8,6 +8,7 @@
 -/
 import DnsModel.CodecBase
 import DnsModel.Name
+import DnsModel.Nsec
 namespace Dns
 
 inductive Val where
@@ -15,6 +16,7 @@ inductive Val where
   | b (bs : Bytes)
   | t (text : Bytes)          -- a domain name in presentation form
   | ss (strs : List Bytes)
+  | ts (types : List Nat)     -- a type bitmap as the list of type codes
 deriving Repr, DecidableEq
 
 /-- what a field holds when the unpacker stopped before reaching it -/
@@ -25,6 +27,7 @@ def zeroVal : CStep → Option Val
   | .str => some (.b [])
   | .name => some (.t [])
   | .txt => some (.ss [])
+  | .nsec => some (.ts [])
   | .other => none
 
 def packTxtStrings : List Bytes → Option Bytes
@@ -42,6 +45,7 @@ def packStep : CStep → Val → Option Bytes
   | .blobRest, .b bs => some bs
   | .blobSized _, .b bs => some bs
   | .txt, .ss strs => packTxtStrings strs
+  | .nsec, .ts types => packNsec types
   | _, _ => none
 
 def packPlan : List CStep → List Val → Option Bytes
@@ -73,6 +77,7 @@ def unpackStep (vals : List Val) : CStep → Bytes → Option (Val × Bytes)
     | .n size => if size ≤ rd.length then some (.b (rd.take size), rd.drop size) else none
     | _ => none
   | .txt, rd => (unpackTxtStrings (rd.length + 1) rd).map (fun ss => (.ss ss, []))
+  | .nsec, rd => (unpackNsec rd).map (fun ts => (.ts ts, []))
   | _, _ => none
 
 /-- a generated `unpack` body: `acc` the fields decoded so far (in order) -/
